@@ -160,18 +160,20 @@ class ProbeKernel(ModelMixin, TransitionMixin, TuningMixin):
         ks, rec = self._rec(kernel_state, kind, epoch, prng_key)
         code = jnp.asarray(0, jnp.int32)
         if self.err_table is not None:
-            chain = _i32(model_state[self.chain_key])
+            chain = _i32(self.model.extract_position([self.chain_key], model_state)[self.chain_key])
             t = jnp.clip(_i32(epoch.time), 0, self.err_table.shape[1] - 1)
             code = self.err_table[chain, t]
         if self.write:
             if self.prev_key is None:
                 prev = jnp.asarray(0, jnp.int32)
             else:
-                prev = _i32(jnp.ravel(model_state[self.prev_key])[0])
+                prev = _i32(jnp.ravel(
+                    self.model.extract_position([self.prev_key], model_state)[self.prev_key])[0])
             v = (_i32(epoch.time) * 7 + self.kidx * 3 + prev * 5 + 1) % MOD
             pos = {}
+            cur = self.model.extract_position(self.position_keys, model_state)
             for j, k in enumerate(self.position_keys):
-                old = model_state[k]
+                old = cur[k]
                 new = (v + j + jnp.arange(old.size, dtype=jnp.int32).reshape(old.shape))
                 pos[k] = new.astype(old.dtype)
             model_state = self.model.update_state(pos, model_state)
